@@ -27,6 +27,7 @@ def l71(p):
     now = symreal('now', lo=10)
     clock = proto.clock_at(now)
     c = proto.mk_base(clock=clock)
+    proto.havoc_counters(c)
     c.outgoing_timeout = symreal('timeout', lo=0.001)
     c.last_recv_time = now
     ack = symint('ack', 1, 65535)
